@@ -519,7 +519,7 @@ func (p *Packer) validSymlink(root, path, target string) (bool, error) {
 	}
 
 	// Target falls within root.
-	if strings.HasPrefix(absTarget, absRoot) {
+	if pathWithin(absRoot, absTarget) {
 		return true, nil
 	}
 
@@ -550,6 +550,17 @@ func (p *Packer) validSymlink(root, path, target string) (bool, error) {
 			path, target,
 		),
 	}
+}
+
+// pathWithin reports whether path is root itself or lies below it. Unlike a
+// plain string prefix test it does not accept a sibling of root whose name
+// merely starts with root's name (for example "/src-other" for root "/src").
+func pathWithin(root, path string) bool {
+	rel, err := filepath.Rel(root, path)
+	if err != nil {
+		return false
+	}
+	return rel != ".." && !strings.HasPrefix(rel, ".."+string(os.PathSeparator))
 }
 
 // checkFileMode is used to examine an os.FileMode and determine if it should
